@@ -192,6 +192,12 @@ func checkFlow(p flowParams, x *verifkit.Exec) []verifkit.Violation {
 			// the engine handed an EMPTY position to the source plugin (and stored it): only a source that emitted a record
 			// without a position can cause this; the engine must refuse such a record instead
 			a.bad("C09/empty-position-acknowledged/"+p.Engine, "source %s was acknowledged an EMPTY position (event #%d): the record without a position was accepted, acked and its empty position persisted", e.Comp, e.Seq)
+		case isSource(e.Comp) && e.Kind == "ack" && e.Idx == -2:
+			// the source plugin was acknowledged a position it never emitted (a processor result's own position leaked into
+			// the ack path)
+			a.bad("C09/foreign-position-acknowledged/"+p.Engine, "source %s was acknowledged position %q, which it never emitted (event #%d)", e.Comp, e.Arg, e.Seq)
+			a.bad("C04/foreign-position-acknowledged", "source %s was acknowledged position %q, which it never emitted (event #%d)", e.Comp, e.Arg, e.Seq)
+			a.bad("C08/acked-position-changed", "source %s was acknowledged position %q instead of the position of the record it read (event #%d)", e.Comp, e.Arg, e.Seq)
 		case isSource(e.Comp) && e.Kind == "ack":
 			ek := epKey{e.Comp, epoch[e.Comp]}
 			acked[ek] = append(acked[ek], e.Idx)
@@ -218,7 +224,21 @@ func checkFlow(p flowParams, x *verifkit.Exec) []verifkit.Violation {
 				a.bad("C02/ack-before-durable", "source %s received the ack for record %d while the store durably holds position %d (event #%d)", e.Comp, e.Idx, lastPos[e.Comp], e.Seq)
 				a.bad("C03/upstream-told-to-discard-beyond-disk", "a crash right after event #%d loses data on a pruning upstream: %s was told record %d is acknowledged while the store durably holds position %d", e.Seq, e.Comp, e.Idx, lastPos[e.Comp])
 			}
+		case isDest(e.Comp) && e.Kind == "recv" && filtered[recKey{strings.SplitN(e.Arg, "|", 2)[0], e.Idx}] && !strings.Contains(e.Arg, "piece=") && allPipelineLevel(p):
+			a.bad("C05/filtered-record-delivered", "destination %s received record %d of %s although a processor filtered it out (event #%d)", e.Comp, e.Idx, strings.SplitN(e.Arg, "|", 2)[0], e.Seq)
+			a.bad("C08/filtered-record-delivered", "destination %s received record %d of %s although a processor filtered it out (event #%d)", e.Comp, e.Idx, strings.SplitN(e.Arg, "|", 2)[0], e.Seq)
+			fallthrough
 		case isDest(e.Comp) && e.Kind == "recv":
+			if want := wantPath(p, e.Comp); want != "" && !strings.Contains(e.Arg, "|dlq|") {
+				got := ""
+				if k := strings.Index(e.Arg, "path="); k >= 0 {
+					got = strings.SplitN(e.Arg[k+5:], "|", 2)[0]
+				}
+				if got != want {
+					a.bad("C08/record-delivered-without-its-processing", "destination %s received record %d with processing path %q, the pipeline's processors are %q: a stale copy of the record, or one a processor never returned, was delivered (event #%d)", e.Comp, e.Idx, got, want, e.Seq)
+					a.bad("C09/unprocessed-record-delivered/"+p.Engine, "destination %s received record %d with processing path %q, the pipeline's processors are %q (event #%d)", e.Comp, e.Idx, got, want, e.Seq)
+				}
+			}
 			src := strings.SplitN(e.Arg, "|", 2)[0]
 			seq := recvOrder[e.Comp][src]
 			if len(seq) > 0 && seq[len(seq)-1] >= e.Idx {
@@ -482,6 +502,10 @@ func (a *analysis) checkRecovery(x *verifkit.Exec) {
 		case isSource(e.Comp) && e.Kind == "open":
 			opens = append(opens, e)
 			transientInRun = 0
+		case e.Comp == "dlq" && e.Kind == "runerr":
+			if transientInRun == 0 && fatalInjected == "" {
+				fatalInjected, fatalInjectedSeq = "a DLQ write failed (the DLQ connector failed while the record was written to it)", e.Seq
+			}
 		case e.Kind == "openfail" || e.Kind == "runerr" || e.Kind == "readerr":
 			transientInRun++ // the run is already failing for a transient reason: that first cause decides its fate
 			if transientSeq < 0 && fatalInjected == "" && !strings.HasPrefix(e.Arg, "ctx") && e.Arg != "abort" {
@@ -1053,6 +1077,39 @@ func (a *analysis) checkApply(x *verifkit.Exec) {
 			}
 		}
 	}
+}
+
+// allPipelineLevel: every processor of the scenario sits on the pipeline (none on a single destination's branch), so a
+// record one of them filters may reach no destination at all.
+func allPipelineLevel(p flowParams) bool {
+	for _, pr := range p.Procs {
+		if pr.Parent != "" {
+			return false
+		}
+	}
+	return len(p.Procs) > 0
+}
+
+// wantPath is the processing path every record delivered to destination dest must carry: the pipeline-level processors in
+// order followed by that destination's own processors. Returns "" when the scenario has a processor whose results make
+// the path undetermined (conditions, live reconfiguration, applies).
+func wantPath(p flowParams, dest string) string {
+	if len(p.Procs) == 0 || len(p.Reconf) > 0 || len(p.Apply) > 0 {
+		return ""
+	}
+	path, tail := "", ""
+	for _, pr := range p.Procs {
+		if pr.Cond != "" {
+			return ""
+		}
+		switch pr.Parent {
+		case "":
+			path += pr.ID + ","
+		case dest:
+			tail += pr.ID + ","
+		}
+	}
+	return path + tail
 }
 
 // statusAt returns the stored pipeline status at event seq.
